@@ -75,7 +75,7 @@ def c30(c):
         c.log('TLC exhaustive (history invariant): %d distinct states' % r2['distinct'])
     binp = c.go_build('wswriter')
     # 2. spec -> code: simulated scripts (every state checked against Roundtrip by TLC) replayed into a real Conn
-    runs = [('sim.cfg', 400)] if quick else [('sim.cfg', 2500), ('simbig.cfg', 2500)]
+    runs = [('sim.cfg', 300)] if quick else [('sim.cfg', 5000), ('simbig.cfg', 5000)]
     ops = 0
     for cfg, n in runs:
         s = c.tlc('WsWriter', 'WsWriterSim', cfg, simulate=n, depth=15, timeout=2400)
